@@ -2,6 +2,7 @@
 (conformance with FFSM2.tla, then the per-property monitors).  Results are cached per tree/spec/seed."""
 import itertools
 import json
+import re
 import os
 import random
 import shutil
@@ -102,10 +103,14 @@ def gen_guard_enum(p, rng, limit):
                 ds.append(_key(1, pend) + ":")
             pend = nxt
         src = idx % (3 if plans else 2)
+        pay = p.get("pay") and idx % 4 >= 2         # payload-carrying requests and redirects in half of the cases
+        if pay:
+            tok = 1 + idx % 3
+            ds = [re.sub(r"T(\d+)", lambda m: "W%s.%d" % (m.group(1), tok), x) for x in ds]
         if src == 0:
-            ls.append("@0 ito %d | %s" % (d, " ; ".join(ds)))
+            ls.append(("@0 iwith %d 0 %d | %s" % (d, 1 + (idx + 1) % 3, " ; ".join(ds))) if pay else ("@0 ito %d | %s" % (d, " ; ".join(ds))))
         elif src == 1:
-            ls.append("@0 update | %s" % " ; ".join([_key(5, a) + ":T%d" % d] + ds))
+            ls.append("@0 update | %s" % " ; ".join([_key(5, a) + (":W%d.%d" % (d, 1 + (idx + 1) % 3) if pay else ":T%d" % d)] + ds))
         else:
             ls.append("@0 pc %d %d" % (a, d))
             ls.append("@0 update | %s" % " ; ".join([_key(4, a) + ":S"] + ds))
@@ -150,6 +155,8 @@ def gen_activation_enum(p, rng, limit):
                 else:
                     e = int(c[1:]); ds.append(_key(1, pend) + ":T%d" % e); nxt = e
             pend = nxt
+        if p.get("pay") and len(out) % 8 >= 4:      # redirects carrying payloads
+            ds = [re.sub(r"T(\d+)", lambda m: "W%s.%d" % (m.group(1), 1 + len(out) % 3), x) for x in ds]
         ls = ["reset"]
         if p.get("manual"):
             ls += ["@0 ctor 0 7 0", "@0 enter | %s" % " ; ".join(ds)]
